@@ -43,8 +43,8 @@ MANIFEST = dict(
 )
 
 FIELDS = ["id", "k", "f", "name", "sku"]
-SVALS = ["1", "2", "A", "B", "ab", "x y", "b", "C++", "a+b", "C", "a b"]
-NVALS = [1, 2, 0, 7]
+SVALS = ["1", "2", "A", "B", "ab", "x y", "b", "C++", "a+b", "C", "a b", "5'", "'tis", "O'B", "$N0t_F0uNd$"]
+NVALS = [1, 2, 0, 7, 9007199254740993, 9007199254740992, -3]
 
 
 def gen_records(rng, numeric=False, nested=False):
